@@ -13,6 +13,10 @@ CONSTANTS
   AsyncApply = TRUE
   MaxPerRequest = 99
   RecursiveRLock = FALSE
+  Kinds = {"Unavailable"}
+  CanceledStops = FALSE
+  StartUnreachable = FALSE
+  DialOnce = FALSE
 INVARIANTS TypeOK InSync
 
 CHECK_DEADLOCK FALSE
